@@ -942,14 +942,17 @@ FUNS1 = ["sin", "cos", "tan", "cot", "sec", "csc", "exp", "log", "sqrt", "atan",
 
 
 def gen_const(E, rng, small=True):
+    """Small constants; integer values are always Python ints (as the parser and the rules produce them)."""
     r = rng.random()
     if r < 0.5:
         return E.Const(rng.choice([0, 1, 2, 3, 4, 5] if small else [0, 1, 2, 3, 7, 10, 12]))
     if r < 0.7:
         return E.Const(-rng.choice([1, 2, 3]))
     if r < 0.9:
-        return E.Const(Fraction(rng.choice([1, 3, 5]), rng.choice([2, 3, 4])))
-    return E.Const(Fraction(-rng.choice([1, 3]), rng.choice([2, 3])))
+        q = Fraction(rng.choice([1, 3, 5]), rng.choice([2, 3, 4]))
+    else:
+        q = Fraction(-rng.choice([1, 3]), rng.choice([2, 3]))
+    return E.Const(q if q.denominator != 1 else int(q))
 
 
 def gen_expr(E, rng, depth, names=("x", "y", "a"), binders=True, funs=FUNS1, extra_funs=("f",), fold_safe=False):
@@ -1068,10 +1071,63 @@ def deriv_stream(ctx, I, n):
     ctx.sample({"deriv_input": str(cases[len(deriv_corpus(I))]) if len(cases) > len(deriv_corpus(I)) else ""})
 
 
+def well_scoped(E, e, outer=frozenset()):
+    """No binder re-binds a variable that is free in the whole expression or bound further out, and no bound
+    variable occurs in its own bounds.  holpy's `subst` is not capture-avoiding and `get_vars` counts the bounds of
+    an integral as bound, so expressions outside this class have no agreed meaning; the value oracles skip them
+    (the structural correspondence with the model does not)."""
+    free = set(e.get_vars())
+
+    def rec(t, bound):
+        if t.ty in (E.OP, E.FUN):
+            return all(rec(a, bound) for a in t.args)
+        if t.ty in (E.INTEGRAL, E.EVAL_AT, E.SUMMATION):
+            v = str(t.var if t.ty != E.SUMMATION else t.index_var)
+            if v in bound or v in free or v in names_in(E, t.lower) or v in names_in(E, t.upper):
+                return False
+            return rec(t.lower, bound) and rec(t.upper, bound) and rec(t.body, bound | {v})
+        if t.ty in (E.DERIV, E.INDEFINITEINTEGRAL):
+            v = str(t.var)
+            if v in bound:
+                return False
+            return rec(t.body, bound | {v})
+        if t.ty == E.LIMIT:
+            if t.var in bound or t.var in free:
+                return False
+            return rec(t.lim, bound) and rec(t.body, bound | {t.var})
+        if t.ty == E.DIFFERENTIAL:
+            return rec(t.body, bound)
+        return True
+    return rec(e, set(outer))
+
+
+def names_in(E, e):
+    """All variable names occurring in e, bound or free."""
+    out = set()
+
+    def rec(t):
+        if t.ty == E.VAR:
+            out.add(t.name)
+        elif t.ty in (E.OP, E.FUN):
+            for a in t.args:
+                rec(a)
+        elif t.ty in (E.INTEGRAL, E.EVAL_AT, E.SUMMATION):
+            rec(t.lower), rec(t.upper), rec(t.body)
+        elif t.ty in (E.DERIV, E.INDEFINITEINTEGRAL, E.DIFFERENTIAL):
+            rec(t.body)
+        elif t.ty == E.LIMIT:
+            rec(t.lim), rec(t.body)
+    rec(e)
+    return out
+
+
 def deriv_oracle(ctx, I, e, rng, var="x"):
     """d/dx by the implementation (with its own normalize) against mpmath.diff at random admissible points."""
     E = I.expr
     if var not in e.get_vars():
+        return
+    if not well_scoped(E, e):
+        ctx.count("deriv-oracle:not-well-scoped")
         return
     st, d = run_deriv_impl(I, e, var, raw=False)
     if st != "ok":
@@ -1684,6 +1740,9 @@ def normalize_check(ctx, I, e, conds, rng):
     ctx.count("normalize:" + st.split(":")[0])
     if st != "ok":
         return
+    if not well_scoped(E, e):
+        ctx.count("normalize:not-well-scoped")
+        return
     st2, n2 = impl_normalize(I, n1, C)
     second = None
     if st2 == "ok" and not same_expr(E, n1, n2):
@@ -2024,6 +2083,13 @@ def exact_eval(E, e, env):
             return None if b == 0 else a / b
         if e.op == "^" and b.denominator == 1 and b >= 0:
             return a ** int(b)
+    if e.ty == E.FUN and e.func_name == "sqrt" and len(e.args) == 1:
+        a = exact_eval(E, e.args[0], env)
+        if a is not None and a >= 0:
+            import math
+            n, d = math.isqrt(a.numerator), math.isqrt(a.denominator)
+            if n * n == a.numerator and d * d == a.denominator:
+                return Fraction(n, d)
     return None
 
 
@@ -2289,6 +2355,10 @@ FINDINGS = [
     {"status": "fixed", "key": "rule-value:DerivIntExchange:INT x:[0,1]. D a. sin(a * x):exchange derivative and integral",
      "commit": "fixes/C19-8.patch",
      "what": "DerivIntExchange on INT x:[a,b]. D t. f swapped the bounds: D t. INT x:[b,a]. f (value negated)"},
+    {"status": "fixed", "key": "bounds:sqrt(x) | x > -1, x <= 4", "commit": "fixes/C19-9.patch",
+     "what": "Interval.sqrt of an interval reaching below zero kept the open flag at 0: sqrt(x) for x in (-1,4] bounded by (0,2]"},
+    {"status": "fixed", "key": "bounds:x ^ y | x >= 1/4, x <= 1/2, y >= 1, y <= 2", "commit": "fixes/C19-10.patch",
+     "what": "Interval power with an interval exponent used [lo^elo, hi^ehi] also for bases below 1: [1/4,1/2]^[1,2] = [1/4,1/4]"},
     {"status": "known", "key": "normalize-idempotent:second-pass-changes-form-only",
      "what": "normalize is not idempotent: a second pass reorders factors, distributes a rational coefficient or simplifies constants "
              "further (e.g. (x - y) / 5 -> 1/5 * (x - y) -> 1/5 * x - 1/5 * y); the value is unchanged (checked on every instance)"},
